@@ -10,6 +10,7 @@ mod c09;
 mod daywalk;
 mod c03;
 mod c04;
+mod c05;
 mod c06;
 mod c10;
 mod c11;
@@ -77,6 +78,7 @@ fn main() {
     "C02" => c02::run(&ctx),
     "C03" => c03::run(&ctx),
     "C04" => c04::run(&ctx),
+    "C05" => c05::run(&ctx),
     "C06" => c06::run(&ctx),
     "C07" => c07::run(&ctx),
     "C08" => c08::run(&ctx),
